@@ -8,7 +8,7 @@ CTRL_SIGS = {'status-not-in-exactly-one-pool','status-annotation-not-owning-pool
 
 def run(ctx):
     ctx.coq_build(["Properties/C02.v"] + ac.COQ_FILES + cc.COQ_FILES)
-    ctx.coq_theorems("Properties/C02.v", sorted(set(ac.CLOSURE + ["Proofs/AllocP.v", "Proofs/AllocPolicyP.v", "Proofs/AllocSortP.v", "Proofs/AllocRefP.v"] + cc.CLOSURE)))
+    ctx.coq_theorems("Properties/C02.v", sorted(set(ac.CLOSURE + ["Proofs/AllocP.v", "Proofs/AllocPolicyP.v", "Proofs/AllocSortP.v", "Proofs/AllocRefP.v", "Proofs/AllocMonoP.v", "Proofs/CtrlStarveP.v", "Proofs/CtrlPostP.v"] + cc.CLOSURE)))
     acases, ast, amism, asearch = ac.run_alloc(ctx, ALLOC_SIGS, n_quick=100)
     ccases, cst, cmism, csearch = cc.run_ctrl(ctx, CTRL_SIGS, n_quick=120)
     def search():
